@@ -183,6 +183,8 @@ class Minimiser:
         case = self.try_one(case, "stdout -> block buffered", env_set("stdout_mode", "block"))
         case = self.try_one(case, "stdout buffer -> 4096", env_set("stdout_bufsize", 4096))
         case = self.try_one(case, "LF checkout", env_set("crlf", False))
+        if "invoked_via_symlink" not in (case.get("base_env") or {}):
+            case = self.try_one(case, "tool started by its plain path", env_set("invoked_via_symlink", False))
         if "environ" not in (case.get("base_env") or {}):
             case = self.try_one(case, "no extra environment variables", env_set("environ", {}))
         if "symlink_farm" not in (case.get("base_env") or {}):
